@@ -56,7 +56,7 @@ package rel
 //@ func Intersect(a, b)
 //@   tags C01, C02, C10
 //@   assigns fresh-only
-//@   modifies mitset, mitseen, enset, enseen, encur
+//@   modifies mitset, mitseen, enset, enseen, encur, enord, enpos
 //@   requires va: validSet2(a)
 //@   requires vb: validSet2(b)
 //@   ensures[C10] nonnil: result != nil
@@ -73,7 +73,7 @@ package rel
 //@ func Difference(a, b)
 //@   tags C01, C02, C10
 //@   assigns fresh-only
-//@   modifies mitset, mitseen, enset, enseen, encur
+//@   modifies mitset, mitseen, enset, enseen, encur, enord, enpos
 //@   requires va: validSet2(a)
 //@   requires vb: validSet2(b)
 //@   ensures[C10] nonnil: result != nil
@@ -91,7 +91,7 @@ package rel
 //@ func SymmetricDifference(a, b)
 //@   tags C01, C02, C10
 //@   assigns fresh-only
-//@   modifies mitset, mitseen, enset, enseen, encur
+//@   modifies mitset, mitseen, enset, enseen, encur, enord, enpos
 //@   requires va: validSet2(a)
 //@   requires vb: validSet2(b)
 //@   ensures[C10] nonnil: result != nil
@@ -101,7 +101,7 @@ package rel
 //@ func Union(a, b)
 //@   tags C01, C02, C10
 //@   assigns fresh-only
-//@   modifies mitset, mitseen, enset, enseen, encur
+//@   modifies mitset, mitseen, enset, enseen, encur, enord, enpos
 //@   requires va: validSet2(a)
 //@   requires vb: validSet2(b)
 //@   ensures[C10] nonnil: result != nil
@@ -126,7 +126,7 @@ package rel
 //@ func (UnionSet).unionWithSubset(u; subset)
 //@   tags C01, C02, C10
 //@   assigns fresh-only
-//@   modifies mitset, mitseen, enset, enseen, encur
+//@   modifies mitset, mitseen, enset, enseen, encur, enord, enpos
 //@   requires valid: validUnion(fr(u.m))
 //@   requires vsub: validSet2(subset) && !(subset is UnionSet) && !(subset is EmptySet)
 //@   ensures[C10] nonnil: result != nil
@@ -136,7 +136,7 @@ package rel
 //@ func NIntersect(a, bs)
 //@   tags C01, C02, C10
 //@   assigns fresh-only
-//@   modifies mitset, mitseen, enset, enseen, encur
+//@   modifies mitset, mitseen, enset, enseen, encur, enord, enpos
 //@   requires va: validSet2(a)
 //@   requires vbs: forall i in 0..len(bs) :: validSet2(bs[i])
 //@   ensures[C01] den: forall x: Val :: mem2(result, x) <==> (mem2(a, x) && (forall i in 0..len(bs) :: mem2(bs[i], x)))
@@ -146,7 +146,7 @@ package rel
 //@ func NUnion(sets)
 //@   tags C01, C02, C10
 //@   assigns fresh-only
-//@   modifies mitset, mitseen, enset, enseen, encur
+//@   modifies mitset, mitseen, enset, enseen, encur, enord, enpos
 //@   requires vs: forall i in 0..len(sets) :: validSet2(sets[i])
 //@   ensures[C01] den: forall x: Val :: mem2(result, x) <==> (exists i in 0..len(sets) :: mem2(sets[i], x))
 //@   ensures[C02] canon: validSet2(result)
@@ -157,3 +157,20 @@ package rel
 //@ func (Dict).Count(d)
 //@   tags C01, C10
 //@   ensures[C01] card: result == scard(box(d))
+
+// ---- PowerSet (ops_set.go) — DRAFT, not claimed (x-c01: not run for lack of time; no obligations are generated) -------
+// Intended contract (every member is a canonical set value that is a subset of the operand; the result is canonical):
+//   func PowerSet(s)   tags C01, C02, C10   returns (r, err)   requires vs: validSet2(s)
+//     ensures[C10] nonnil:  err == nil ==> r != nil
+//     ensures[C02] members: err == nil ==> forall m: Val :: mem2(r, m) ==> (m is Set && validSet2(m))
+//     ensures[C01] subsets: err == nil ==> forall m: Val :: mem2(r, m) ==> (forall x: Val :: mem2(m, x) ==> mem2(s, x))
+//     ensures[C02] canon:   err == nil ==> validSet2(r)
+//     (completeness — every canonical subset occurs, once — needs an existential over set values; not drafted)
+// GenericSet branch: needs assumed contracts for frozen.Powerset$Value, (frozen.Set).Range$Set_Value and
+// frozen.Iterator$Set_Value.Next/Value ("the current value is a frozen set all of whose members are members of the base
+// set"), then newSetFromFrozenSet's proved contract gives None / True / GenericSet with validGeneric (members of a subset
+// of a generic-routed set are generic-routed), and the outer newSetFromFrozenSet needs bucketOf(set value) == genericBkt
+// (axiom added to 35_sets.smt2) and "EmptyTuple is not a Set". loop 0 invariant: forall m: Val :: fmem(sb.b.t.root, m) ==>
+// (m is Set && validSet2(m) && forall x: Val :: mem2(m, x) ==> fmem(gr(s), x)).
+// Other representations: loops over s.Enumerator() / result.Enumerator() with With (interface contract speaks `mem`, not mem2:
+// see notes/w-c01.md) and Union (proved contract): loop 1 invariant over enseen: newSets = { x with c | x produced so far }.
